@@ -18,6 +18,7 @@ RULE = (
     "scrolled exactly max(0, n-fit) lines; return value == rows pushed off the top; cursor on the designated cell when on screen; "
     "on exit nothing above the cursor row altered, rows from the cursor row down blank, cursor visible. Non-trivial: >=1 render "
     "that scrolls and >=1 later render."
+    ' The caller may keep one list object and edit it in place between renders; terminals up to 24 x 40.'
 )
 ASSUMPTIONS = [
     "reference terminal = xterm semantics (vf/refterm.py), DSR answered from the model's cursor",
